@@ -40,7 +40,9 @@ func (c *tableCodec) define(spec int) int {
 	}
 	if !c.defined[id] {
 		var e []byte
-		if id >= 8 {
+		if id == 71 {
+			e = []byte{0x50, 0x01} // the one generated entry that branches off at the first byte
+		} else if id >= 8 {
 			e = []byte{0x30, byte(3*id + 1)}
 		} else if spec&(1<<12) != 0 {
 			// stemmed 14-byte encoding: symbolic bytes at positions 0, 6, 12, 13, concrete bytes in between —
@@ -87,6 +89,7 @@ func hkTable() *hk[int] {
 			return vpTreeState{tt.root, tt.size, lv}
 		},
 		newTree: func() Tree[int, uint64] { return NewCompoundTree[int, uint64](c) },
+		tkeyOf:  enc,
 		newKey:  c.define,
 		concKey: func(spec int) int { return c.define(spec | 1<<20) },
 		clone:   func(k int) int { return k },
@@ -126,6 +129,7 @@ func hkPair() *hk[pairKey] {
 			return vpTreeState{tt.root, tt.size, lv}
 		},
 		newTree: func() Tree[pairKey, uint64] { return NewCompoundTree[pairKey, uint64](pairCodec{}) },
+		tkeyOf:  func(k pairKey) []byte { b, _ := pairCodec{}.Transform(k); return b },
 		// spec = length of the string field
 		newKey: func(spec int) pairKey {
 			s := vpBytes(spec)
